@@ -113,3 +113,14 @@ Theorem C16_duration_wrap_witness_refuted :
                 | inr _ => False end.
 Proof. exact duration_wrap_witness. Qed.
 Print Assumptions C16_duration_wrap_witness_refuted.
+
+From Muxide Require Export Spec.Checks Spec.HeaderChecks Proofs.EndToEndProofs Proofs.FieldEndToEndProofs.
+(* clause 7 (the configuration record decodes strictly to the configuration of the first accepted key frame:
+   parameter-set lengths and bytes, av1C / vpcC fields) is never reported on a finished file, for any codec,
+   with no hypothesis on durations or audio *)
+Theorem C16_parameter_set_clause_never_fails : forall b m0 ops m rs s,
+  build b [] = inl m0 -> run m0 ops = (m, rs) -> In (RStats s) rs ->
+  Forall op_payload_ok ops -> len (sink_of m) < 4294967296 ->
+  ~ In 7 (failed_C16_mux b ops (map class_of rs) (sink_of m)).
+Proof. exact parameter_set_clause_never_fails. Qed.
+Print Assumptions C16_parameter_set_clause_never_fails.
